@@ -310,11 +310,10 @@ func runC02(r *ev.Run, thorough bool) {
 		r.Add("size_sweep_values", ns)
 		// decode direction
 		n := 0
-		wireSpace(t, wireOpts{DevBaseOnly: !thorough, Dev: 1, Indel: true}, func(w []byte, desc string) bool {
+		wireSpace(t, wireOpts{DevBaseOnly: !thorough, Dev: 1, Indel: true, IndelMaxLen: 200}, func(w []byte, desc string) bool {
 			n++
-			key := ev.H(t.QName() + string(w))
-			l.Eval(key, true)
-			l.States[key] = struct{}{}
+			// wireSpace de-duplicates the wires of one type itself: counted as distinct, not stored again (memory)
+			l.Evals++
 			l.Transitions++
 			l.Traces++
 			viol := c02Wire(t, w)
@@ -329,6 +328,7 @@ func runC02(r *ev.Run, thorough bool) {
 			return true
 		})
 		r.Add("decode_direction_wires", int64(n))
+		r.SetDistinctAdd(int64(n))
 	})
 	r.Sample("sse.Logon D .HeartBtInt=0x1: library bytes == schema bytes")
 	r.Set("bound", map[string]any{"k_deviations": k12(thorough), "wire_deviations": 1, "types": len(bind.Types)})
